@@ -40,7 +40,9 @@ var moduli = []*big.Int{
 	mustBig("0xffffffffffffffffffffffffffffffff000000000000000000000001"), // P-224 prime
 }
 
-var lengths = []int{1, 2, 7, 8, 9, 63, 64, 65, 511, 512, 513, 1023, 1024, 1025, 2000}
+// 2047..2049, 4095..4097, 5000: the packed vectors (32 bytes per element) cross the
+// connection layer's 64 KiB write buffer once, twice and more
+var lengths = []int{1, 2, 7, 8, 9, 63, 64, 65, 511, 512, 513, 1023, 1024, 1025, 2000, 2047, 2048, 2049, 4095, 4096, 4097, 5000}
 
 func drawElem(t *rt.Tape, p *big.Int, r *simrand.DRBG) *big.Int {
 	switch t.Choose(rt.SGen, 6) {
@@ -109,7 +111,7 @@ func (w *world) Run(t *rt.Tape, trace bool) *core.Result {
 		for i := 0; i < calls; i++ {
 			n := lengths[t.Choose(rt.SGen, len(lengths))]
 			if t.Choose(rt.SGen, 3) == 0 {
-				n = 1 + t.Choose(rt.SGen, 2000)
+				n = 1 + t.Choose(rt.SGen, 6000)
 			}
 			if small && n > 300 {
 				n = 1 + n%300
